@@ -1071,8 +1071,25 @@ pub enum AppearanceStreamEntry {
 }
 impl Object for AppearanceStreamEntry {
     fn from_primitive(p: Primitive, resolve: &impl Resolve) -> Result<Self> {
+        // an appearance is a stream or a dictionary of appearance states; one more level is tolerated
+        AppearanceStreamEntry::from_primitive_depth(p, resolve, 2)
+    }
+}
+impl AppearanceStreamEntry {
+    fn from_primitive_depth(p: Primitive, resolve: &impl Resolve, depth: usize) -> Result<Self> {
         match p.resolve(resolve)? {
-            p @ Primitive::Dictionary(_) => Object::from_primitive(p, resolve).map(AppearanceStreamEntry::Dict),
+            Primitive::Dictionary(dict) => {
+                // the values are resolved, not loaded through `get`: without a budget a dictionary
+                // that contains (a reference to) itself would recurse without bound
+                if depth == 0 {
+                    bail!("appearance dictionaries nested too deeply");
+                }
+                let mut states = HashMap::new();
+                for (key, val) in dict.iter() {
+                    states.insert(key.clone(), AppearanceStreamEntry::from_primitive_depth(val.clone(), resolve, depth - 1)?);
+                }
+                Ok(AppearanceStreamEntry::Dict(states))
+            }
             p @ Primitive::Stream(_) => Object::from_primitive(p, resolve).map(AppearanceStreamEntry::Single),
             p => Err(PdfError::UnexpectedPrimitive {expected: "Dict or Stream", found: p.get_debug_name()})
         }
